@@ -380,6 +380,57 @@ def r04f(ctx):
                                f"caller built")
 
 
+def r04h(ctx):
+    """One name per part: the one the package stores it under.
+
+    Document.set_part / get_part strip a leading './' from the path ('./Pictures/x' and 'Pictures/x' are the same member).  A function
+    that stores a part through them and files it in the manifest must hand the manifest that stored name — a raw href taken from a
+    style (`./Pictures/x.png`) lists a file the package does not hold and leaves the one it holds unlisted.  Rule: where a method of
+    Document calls both `self.set_part(K, …)` and `<manifest>.add_full_path(K2, …)` with names, K2 is K and every definition of K
+    either applies the same normalisation (`.lstrip("./")`) or builds the name from a constant prefix.
+    """
+    repo = ctx.repo
+    ctx.rule("R04h", "a part stored through Document.set_part is filed in the manifest under the normalised name it is stored by", floor=2)
+    sp = repo.func("Document.set_part")
+    norm_calls = [c for c in walk_no_nested(sp.node) if isinstance(c, ast.Call) and isinstance(c.func, ast.Attribute) and c.func.attr == "lstrip"]
+    if not norm_calls:
+        ctx.note("R04h: Document.set_part no longer normalises its path; nothing to agree with")
+        ctx.rules["R04h"].floor = 0
+        return
+    for name, fs in sorted(repo.cls("Document").methods.items()):
+        f = fs[0]
+        sets = [c for c in walk_no_nested(f.node) if isinstance(c, ast.Call) and call_name(c) == "set_part" and isinstance(c.func, ast.Attribute)
+                and isinstance(c.func.value, ast.Name) and c.func.value.id == "self" and c.args and isinstance(c.args[0], ast.Name)]
+        files = [c for c in walk_no_nested(f.node) if isinstance(c, ast.Call) and call_name(c) == "add_full_path" and c.args and isinstance(c.args[0], ast.Name)]
+        for fl in files:
+            k2 = fl.args[0].id
+            partner = [c for c in sets if c.args[0].id == k2]
+            if not partner:
+                continue
+            defs = [a.value for a in walk_no_nested(f.node) if isinstance(a, ast.Assign) and any(isinstance(t, ast.Name) and t.id == k2 for t in a.targets)]
+            # the definition that reaches this call: the nearest one above it in the same block chain (by line)
+            above = [d for d in defs if d.lineno <= fl.lineno]
+            d = max(above, key=lambda e: e.lineno) if above else None
+
+            def normalised(e):
+                if e is None:
+                    return False
+                if isinstance(e, ast.Call) and isinstance(e.func, ast.Attribute) and e.func.attr == "lstrip" and e.args and isinstance(e.args[0], ast.Constant) and e.args[0].value == "./":
+                    return True
+                if isinstance(e, ast.JoinedStr) and e.values and isinstance(e.values[0], ast.Constant) and not str(e.values[0].value).startswith("."):
+                    return True
+                if isinstance(e, ast.BinOp) and isinstance(e.op, ast.Add):
+                    return isinstance(e.left, ast.Constant) and isinstance(e.left.value, str) and not e.left.value.startswith(".")
+                return False
+
+            ok = normalised(d)
+            ctx.instance("R04h", f"{f.file}:{f.ident}", f"`{norm(fl, 40)}`: `{k2}` = {norm(d, 30) if d is not None else 'a parameter'}", ok=ok, nontrivial=True, line=fl.lineno)
+            if not ok:
+                ctx.report("R04h", f, fl, norm(fl, 60),
+                           f"{f.ident} stores the part with self.set_part({k2}, …), which strips a leading './', and files it in the manifest under the raw `{k2}` "
+                           f"(= {norm(d, 40) if d is not None else 'its parameter'}): for a reference written './Pictures/x.png' the manifest lists another name than the package holds")
+
+
 def run(ctx):
     r04a(ctx)
     r04b(ctx)
@@ -392,6 +443,10 @@ def run(ctx):
     r10d(ctx)
     r04e(ctx)
     r04f(ctx)
+    r04h(ctx)
+    # the manifest entry of a part is found and removed by the exact path: a prefix or substring match unlists other parts that stay in the package (shared with C14)
+    from .c14 import r14f
+    r14f(ctx)
     # the manifest is one of the parsed XML parts: it reaches the package only if Document.save flushes every parsed part (rule shared with C03)
     from .c03 import r03b
     r03b(ctx)
@@ -404,6 +459,8 @@ _DOC = "src/odfdo/document.py"
 _MA = "src/odfdo/manifest.py"
 _MAN = "src/odfdo/manifest.py"
 SEEDS = [
+    Seed("merge_styles_from files the fill image under its raw href", "fault", _DOC,
+         '                url = style.url.lstrip("./")  # type: ignore', '                url = style.url  # type: ignore', "R04h"),
     Seed("Document.mimetype setter forgets the manifest root entry", "fault", _DOC,
          '        self.container.mimetype = mimetype\n        # the root entry of the manifest carries the same media type\n        self.manifest.add_full_path("/", mimetype)\n', '        self.container.mimetype = mimetype\n', "R04d"),
     Seed("manifest.rdf check decides on the member list of the file again", "fault", _DOC,
